@@ -28,7 +28,15 @@ PARTIAL = ['C12_comments_kept_covered_partial: presence of every kept comment is
            'math_mode text / with-delimiters / remove; C12_source_level_all_modes_partial: the same for ALL four math modes '
            '(verbatim included) when the formulas of the two documents are identical (comments inside a formula are '
            'reproduced with its source in verbatim mode); not stated: the rest of the document grammar (environments, '
-           'optional arguments, specials, $$..$$); the tree-level non-interference theorems are complete']
+           'optional arguments, specials, $$..$$); the tree-level non-interference theorems are complete',
+           'C12_source_level2_partial, C12_source_level2_all_modes_partial (composed with C02_parse_unparse2_partial, '
+           'Proofs/Compose2Comments.v): the same over the EXTENDED document grammar (environments with arguments and math '
+           'bodies, $$..$$, specials, optional / star / single-token / verbatim arguments, comments IN FRONT OF arguments): '
+           'documents differing only in comment text (anywhere) convert equally for keep_comments=False and a non-verbatim '
+           'math mode; for ALL four math modes when formulas and equation environments (those rendered from their source) are '
+           'identical - comments inside any other environment remain free (C12_relational2 refines C12_relational: the '
+           'source slice of an environment matters only for equation environments). Partial only in that the extended '
+           'grammar is not the whole of LaTeX (see notes/C02.md)']
 REFUTED = []
 CASE_TIMEOUT = 10.0
 
